@@ -69,5 +69,14 @@ TEXT = {
         "note": _NOTE,
         "technique": "runtime monitoring: differential oracle (reference diagonal + generic-vs-structural) with dispatch-tap attribution of refusals",
     },
+    "C09": {
+        "level": "Held on the executions observed: operators with spectrum known by construction under every structural rule x "
+                 "function x exponent x algorithm x iteration cap x operand rank, f(A)@v compared per column with V f(L) V^-1 v of "
+                 "the reference (principal branch); sqrt twice, power -1 and integer powers also compared with A, the inverse and "
+                 "repeated products.",
+        "note": _NOTE + "; Lanczos/Arnoldi paths are judged in double precision with max_iters >= n (the statement asks for the full "
+                "Krylov dimension) to a 1e-9-based bound",
+        "technique": "runtime monitoring: differential oracle (reference eigendecomposition with constructed spectrum) with sub-expression blame",
+    },
 }
 NOT_APPLICABLE = {}
